@@ -20,6 +20,11 @@ CLAIMS = {
     "C03": ("other", "Exactly-one-of {free, keep} per scanned element on every path, compaction count, full-range loops, retire() push/scan "
             "coupling, help_scan moves and clears, destructor drains of every record (HP and DHP). Cross-thread exactly-once is not decided.",
             "static analysis: path tables and def-use rules over clang-extracted CFGs", "DESIGN.md §4 C03"),
+    "C10": ("other", "Decision table over every path of FCDeque::fc_process: each collision row (op-codes recovered from the path, ends derived "
+            "from fc_apply) is push/pop in the right argument order and either same-end or guarded by m_Deque.empty(); collided record is "
+            "forgotten; collide() completes both records once and hands the value over; the op-code each public method publishes is executed "
+            "as the same-named deque operation. This decides the statement's 'in particular' clause, not linearizability.",
+            "static analysis: path table (PATHTABLE) with op-code/end derivation from fc_apply", "DESIGN.md §4 C10"),
     "C17": ("other", "Hash-independent element conservation on every CFG path of the relocation code: CuckooSet::resize and relocate insert "
             "each moved element exactly once (known finding D5: the all-probe-sets-full path of resize drops the element), probe-set positions "
             "are used before anything mutates the probe sets, StripedSet::internal_resize moves every element of every old bucket once into "
